@@ -264,6 +264,7 @@ def sched_case(
     warm_rate: float = 0.3,
     nested_rate: float = 0.15,
     spawn_fail_rate: float = 0.0,
+    many_args_rate: float = 0.0,
 ) -> Dict[str, Any]:
     mode = draw(st.sampled_from(list(modes)))
     res_pool = list(resources)
@@ -284,7 +285,8 @@ def sched_case(
                            mark_roots=not (sel_on or setup_by_roots), index_rate=index_rate, bad_index_rate=bad_index_rate,
                            n_setup=(draw(st.integers(2, max(2, n_setup))) if setup_by_roots else draw(st.integers(0, n_setup))) if n_setup else 0,
                            n_debug=draw(st.integers(0, n_debug)) if n_debug else 0,
-                           split_rate=0.3 if flags else 0.0, same_qual_rate=0.12, setup_dense=setup_by_roots))
+                           split_rate=0.3 if flags else 0.0, same_qual_rate=0.12, setup_dense=setup_by_roots,
+                           many_args_rate=many_args_rate))
     sites = [s["site"] for s in P["body"]]
     fn_uses: Dict[str, int] = {}
     for s in P["body"]:
